@@ -11,7 +11,7 @@ patch = os.path.join(outdir, f'patch{n}.diff')
 demo = os.path.join(outdir, f'demo{n}')
 wt = '/tmp/keep-' + hashlib.md5(patch.encode()).hexdigest()[:8]
 def sh(cmd, cwd=None, check=False):
-    p = subprocess.run(cmd, shell=True, cwd=cwd, env=env, capture_output=True, text=True)
+    p = subprocess.run(cmd, shell=True, cwd=cwd, env=env, capture_output=True, text=True, errors='replace')
     if check and p.returncode != 0:
         print(p.stdout[-2000:], p.stderr[-2000:]); raise SystemExit(f'FAILED: {cmd}')
     return p
